@@ -86,6 +86,7 @@ func RunC20(c *engine.Ctx) {
 		return
 	}
 	c.Selftest("seam_vfs", "true")
+	syscallBinding(c)
 	for _, h := range crashHistories(c.Thorough()) {
 		h := h
 		c.Group(h.Name)
